@@ -3,6 +3,7 @@
   world in which an immediate second invocation does nothing.
 -/
 import N2V.Lemmas.WorkSettled
+import N2V.Lemmas.SchedComplete
 namespace N2V.Work
 open N2V N2V.Load N2V.Sched N2V.Run
 
@@ -37,7 +38,7 @@ theorem build_done_js (e0 : Env) (inv0 : GInv e0.g) (plain : Plain e0.g) (hnd0 :
 /-- **A successful build followed by the same build: the second does nothing.**  For a project
     without discovered dependencies (no depfile / `deps`, no rewritten inputs, log without
     dependency lists) whose graph has no ordering cycle: if an invocation succeeds without
-    reloading the manifest, every step it wanted was marked, the files those steps name exist
+    reloading the manifest, the files the steps it wanted name exist
     afterwards and the manifest still loads to the same graph, then the next invocation with the
     same arguments leaves the world as it is, starts no command, and reports 0 tasks — for every
     scheduling behaviour of the environment in either invocation. -/
@@ -46,8 +47,6 @@ theorem second_build_does_nothing (w : World) (a : InvArgs) (perms : List (List 
     (plain : Plain e0.g) (hlog : ∀ r ∈ w.log, r.deps = [])
     (acyc : Acyclic (schedGraph e0.g)) (hpar : 0 < a.par) (n : Nat)
     (hdone : (build (schedGraph e0.g) (argsOf l a) (choices a.adopt perms fin) e0).2.2 = .done n)
-    (hcomplete : ∀ b, Wanted (schedGraph e0.g) (argsOf l a) b →
-      (build (schedGraph e0.g) (argsOf l a) (choices a.adopt perms fin) e0).1.st b ≠ .unknown)
     (hpresent : ∀ b bm, Wanted (schedGraph e0.g) (argsOf l a) b → buildOf e0.g b = some bm → bm.cmdline.isNone = false →
       AllPresent (build (schedGraph e0.g) (argsOf l a) (choices a.adopt perms fin) e0).2.1 bm)
     (w' : World)
@@ -67,6 +66,9 @@ theorem second_build_does_nothing (w : World) (a : InvArgs) (perms : List (List 
   have hg0 : e0.g = l.graph := by rw [he0]; exact g0
   have hh0 : e0.hashes = hashesOf l.graph w.log [] := by rw [he0]; exact h0
   have hnd0 : ∀ b, discOf e0 b = [] := by intro b; rw [he0]; exact d0 b (by simp [discOf, assocGet])
+  have hcomplete : ∀ b, Wanted (schedGraph e0.g) (argsOf l a) b →
+      (build (schedGraph e0.g) (argsOf l a) (choices a.adopt perms fin) e0).1.st b ≠ .unknown :=
+    fun b hW => build_complete gok (argsOf l a) _ e0 n hdone b hW
   -- the invariant at the end of the first build
   have j := build_done_js e0 inv0 plain hnd0 hcache0 (argsOf l a) a.adopt perms fin n hdone
   generalize hr : build (schedGraph e0.g) (argsOf l a) (choices a.adopt perms fin) e0 = r at j hdone hcomplete hpresent hw'
